@@ -20,6 +20,7 @@ type TaskState struct {
 	Steps       uint64 // this task's own step clock
 	NextPreempt uint64 // yield when Steps reaches this value (0 = never)
 	Finished    bool
+	blocked     uint64
 	rfd, wfd    int
 }
 
@@ -76,6 +77,12 @@ var (
 	mainR    int
 	mainW    int
 	Solo     TaskState // pseudo task used by the single-task modes
+
+	// NoPreempt > 0: the current task is inside a section that must not be
+	// parked (sync.Once.Do); a due preemption is retried at the next step.
+	NoPreempt int
+	// BlockedYields counts baton hand-offs caused by a contended lock.
+	BlockedYields uint64
 )
 
 // ResetOp clears the per-operation ledgers.
@@ -286,4 +293,63 @@ func MapKeys[M ~map[K]V, K cmp.Ordered, V any](m M) []K {
 		slices.Sort(ks)
 	}
 	return ks
+}
+
+// NoPreemptEnter / NoPreemptLeave bracket a section in which the current task is not parked.
+//
+//go:norace
+func NoPreemptEnter() { NoPreempt++ }
+
+//go:norace
+func NoPreemptLeave() {
+	if NoPreempt > 0 {
+		NoPreempt--
+	}
+}
+
+// Deadlock is the panic value raised when a client waits for a lock that no
+// other client can ever release.
+type Deadlock struct{ Task int }
+
+func (d *Deadlock) Error() string {
+	return "verifrt: deadlock: every unfinished client is blocked on a lock"
+}
+
+// YieldBlocked is called by the sync shim when a lock is contended: the holder
+// must be a parked client, so the baton goes to the next unfinished client
+// (round robin from the caller) without consuming the explicit schedule. With a
+// single client the lock can never be released: that is a deadlock.
+//
+//go:norace
+func YieldBlocked() {
+	t := Cur
+	if t == nil || t == &Solo || len(Tasks) == 0 {
+		panic(&Deadlock{-1})
+	}
+	n := len(Tasks)
+	var next *TaskState
+	for k := 1; k < n; k++ {
+		c := Tasks[(t.ID+k)%n]
+		if c != nil && !c.Finished {
+			next = c
+			break
+		}
+	}
+	if next == nil {
+		panic(&Deadlock{t.ID})
+	}
+	t.blocked++
+	if t.blocked > 1_000_000 {
+		panic(&Deadlock{t.ID})
+	}
+	BlockedYields++
+	if len(Switches) < cap(Switches) {
+		Switches = append(Switches, Switch{t.ID, t.Steps, 0, next.ID})
+	}
+	if next.NextPreempt != 0 && next.NextPreempt <= next.Steps {
+		next.NextPreempt = 0
+	}
+	Cur = next
+	wake(next.wfd)
+	park(t.rfd)
 }
